@@ -14,4 +14,25 @@ CLAIMS = {
         'technique': 'Lean 4 proof (induction over the field list) + differential correspondence with exhaustive small grid',
     },
 }
+CLAIMS['C16'] = {
+    'text': ("Theorems over the model with the convention tables regenerated from src/semantic/function.rs on every run: the source's "
+             "as_str/from_str tables are the seven documented conventions and are mutually inverse (table_is_documented, fromStr_asStr, "
+             "asStr_injective), the defaults are thiscall/system/thiscall (defaults_are_documented), every accepted function carries "
+             "the convention the property prescribes and unknown names are rejected (built_cc, unknown_rejected), slots carry the "
+             "function's convention, both printers print asStr of it, inherited slots keep it (inherited_same). On every run the "
+             "model is compared with pyxis on generated worlds, and an oracle recomputes the prescribed convention from the input and "
+             "compares it with the ABI string of every emitted fn-pointer type and wrapper."),
+    'note': COMMON_NOTE + "functions whose name starts with `_` are not emitted (C05 finding) and not checked here; ABI strings are compared textually, 32-bit calling sequences are never executed.",
+    'technique': 'Lean 4 proof over regenerated tables (decide + induction over the attribute loop) + differential correspondence + output oracle',
+}
+CLAIMS['C08'] = {
+    'text': ("Theorems: an accepted enum has exactly the discriminants the description says (values), the repr and layout of its "
+             "integer base (repr), #[default] exactly on the marked variant and marker/defaultable inconsistencies rejected "
+             "(default_marker, marker_inconsistency_rejected, emitted), every value fits the width of the base (values_fit_width) and, "
+             "under a model of Rust's integer casts, `v as T` is v whenever v fits T (cast_of_fits, discriminant_is_value_partial). The "
+             "full range clause is refuted for negative values of unsigned bases (negative_in_unsigned_accepted; known finding, the "
+             "pinned test can_resolve_enum requires it). Correspondence and an output oracle on generated enums with boundary values."),
+    'note': COMMON_NOTE + "Rust's `as` cast on integers is modelled (wrap modulo 2^bits), not verified; discriminants are read off the emitted literals.",
+    'technique': 'Lean 4 proof (induction over the variant list; modelled integer casts) + differential correspondence + output oracle',
+}
 NOT_CLAIMED = {}
